@@ -33,7 +33,7 @@ ATOMS = ['true', 'category == "food"', 'category != "Bills"', 'subcategory == "g
          'count(by("year")) == 2', 'max(count(by("day"))) >= 2', 'count(by("day")) >= 3', 'months >= max_val(2, period("month") * 0.5)',
          'total / months > 50', 'total / (months - 1) > 0', 'months >= period("year")', 'abs(total) > 10', 'g', 'v > 10',
          'g and v > 50', 'h', 'min_val(total, 100) == 100', '(total if months > 1 else 0) > 20', 'avg(sum(by("month"))) >= 100',
-         'count(payments) == count(by("day"))']
+         'count(payments) == count(by("day"))', 'max(stddev(by("month"))) < 1']
 ERR_ATOMS = ['nosuch > 1', 'total > "x"', 'sum(category) > 1', 'max(by("bogus")) > 1', 'max_val(1) > 0', 'tags > 1',
              'sum(by("month")) > 100', 'payments.count > 1', 'total[0] > 1', '-category == 1', 'months + "1" > 1']
 CORE = ['true', 'category == "food"', 'months >= 3', 'total > 100', 'cv < 0.3', '"recurring" in tags', 'g', 'v > 10', 'nosuch > 1',
